@@ -203,6 +203,17 @@ def _install_wrappers():
 
     Blotter.process_closed_market = blotter_pcm
 
+    from flumine.controls import BaseControl
+
+    orig_on_error = BaseControl._on_error
+
+    def control_on_error(self, order, error):
+        if CUR is not None:
+            _dispatch("control_error", self, order, error)
+        return orig_on_error(self, order, error)
+
+    BaseControl._on_error = control_on_error
+
     Market = F["flumine"].markets.market.Market
     orig_mcall = Market.__call__
 
@@ -462,13 +473,15 @@ def make_agent_class():
             F = _F
             sel, side = a["sel"], a["side"]
             hc = a.get("hc", 0)
+            trades = self.trades.setdefault(market.market_id, [])
+            t = a.get("trade")
+            if t is not None and 0 <= t < len(trades):
+                sel = trades[t].selection_id  # an order always lives on its trade's selection
             if self.spec.get("discipline"):
                 for o in market.blotter._strategy_selection_orders.get((self, sel, hc), ()):
                     if o.status in BUSY:
                         run.res.probes["agent.place.deferred"] += 1
                         return
-            trades = self.trades.setdefault(market.market_id, [])
-            t = a.get("trade")
             if t is not None and 0 <= t < len(trades):
                 trade = trades[t]
             else:
@@ -549,7 +562,7 @@ class Monitor:
 HOOKS = (
     "order_created status_before status request_before request_after txn_execute txn_exit package exec_before "
     "exec_after before_matching after_matching add_transaction results close_before close_after "
-    "remove_market strategy_call strategy_closed log update_start update_end begin end"
+    "remove_market strategy_call strategy_closed log update_start update_end begin end control_error"
 ).split()
 
 SITE_OWNERS = (
